@@ -477,8 +477,10 @@ impl Property for C19 {
                 for (i, e) in els.iter().enumerate() {
                     if *inputs {
                         // the finalised script of an input is unlocking ++ locking; put the whole script in the locking part
-                        let mut txin = TxIn::new(&[i as u8 + 1; 32], i as u32, &Script::default(), None);
-                        txin.set_locking_script(&script_from_els(e));
+                        // split the script between the unlocking and the locking part at a position that varies with the index
+                        let cut = if e.is_empty() { 0 } else { (i * 7 + vals[i] as usize) % (e.len() + 1) };
+                        let mut txin = TxIn::new(&[i as u8 + 1; 32], i as u32, &script_from_els(&e[..cut]), None);
+                        txin.set_locking_script(&script_from_els(&e[cut..]));
                         txin.set_satoshis(vals[i]);
                         tx.add_input(&txin);
                     } else {
